@@ -107,8 +107,9 @@ def check_series(ctx, VG, x, t, horizontal, missing, cid, relations=True):
         ctx.violation(f"{kind}:ret+adv!=degree", {**case, "ret": rd,
                                                    "adv": ad, "deg": dg}, cid)
     ctx.count("degree_sum_checked")
-    if has_nan:
-        return
+    # (series with missing samples take part in the relations as well: the
+    #  graph is then disconnected, which is where the time-directed
+    #  closeness measures meet infinite path lengths)
     # --- affine invariance --------------------------------------------
     r = ctx.rng("aff", cid)
     a = float(2.0 ** r.integers(-2, 3))
